@@ -163,6 +163,16 @@ class Runner:
         if self.conn_state == 'idle' and not s.is_alive() and not self.ctl.parked:
             pk = 'notStarted'
         rp = []
+        parses = []          # per request: does the LIBRARY parse the reply it holds ('P'), refuse it ('X'), or is there none ('-')
+        for r in self.rpcs:
+            v = '-'
+            if r is not None and r is not UNREF and getattr(r, 'reply', None) is not None and hasattr(r.reply, 'parse'):
+                try:
+                    r.reply.parse()
+                    v = 'P'
+                except Exception:
+                    v = 'X'
+            parses.append(v)
         for i, r in enumerate(self.rpcs, 1):
             if r is None:
                 st = 'W'
@@ -183,7 +193,7 @@ class Runner:
         caps = '-' if sc is None else hlist(hexs(c) for c in sc)
         return {'pc': pk, 'connected': bool(s.connected), 'base11': getattr(s, '_base', None) == NetconfBase.BASE_11,
                 'wire': bytes(self.ctl.wire).hex(), 'rpcs': rp, 'taken': list(self.taken), 'conn': self.conn_state,
-                'sid': sid, 'caps': caps}
+                'sid': sid, 'caps': caps, 'reply_parses': parses}
 
     def _cmd_done(self, first):
         if self.pending_lines:
